@@ -8,7 +8,8 @@ Hand model of `parsers.parse_amount`, `parsers.extract_location` and of the row 
   `_iter_rows_with_delimiter` produced from the same file).  Tokenisation itself is `iterRows` (section
   "tokenisation"): `readCsv` models `csv.reader`, the regular expression of a `regex:` delimiter is a parameter.
 * Text is `List Char`; every function is total and structurally recursive.
-* External functions are parameters (`Oracles`): `float()` and `datetime.strptime`.
+* External functions are parameters (`Oracles`): `float()` and `datetime.strptime` (the latter is modelled in
+  Model/Strptime.lean: `Strptime.oracles` instantiates it, leaving only CPython's character tables as a parameter).
 * A Python `float` is its IEEE-754 bit pattern, split into sign bit and 63-bit magnitude (`F64`);
   negation, `abs`, `== 0`, `< 0`, `math.isfinite` are exact operations on that pattern.
 * `Cfg.skipNonFinite = true` is the repaired code (fix D5: `if not math.isfinite(amount): continue`);
@@ -86,11 +87,19 @@ def cleanAmount (eu : Bool) (cell : Str) : Bool × Str :=
            else s.filter fun c => c != ','
   (paren, s)
 
+/-- why `datetime.strptime` returned no date -/
+inductive DateErr
+  | valueError      -- no match / unconverted data / impossible date / bad directive: caught per row
+  | reError         -- `re.error` (the format uses a directive twice: "redefinition of group name"): NOT caught
+  | unsupported     -- the format uses a directive outside the model of `strptime`
+deriving DecidableEq, Repr
+
 structure Oracles where
   /-- `float(text)`; `none` = `ValueError` -/
   pyFloat : Str → Option F64
-  /-- `datetime.strptime(token, fmt)` as ISO text; `none` = `ValueError` -/
-  strptime : (fmt tok : Str) → Option Str
+  /-- `datetime.strptime(token, fmt).isoformat()`.  `Strptime.dateOracle` (Model/Strptime.lean) is the model of CPython's
+  `_strptime`; the theorems of the row loop hold for every function here -/
+  strptime : (fmt tok : Str) → Except DateErr Str
 
 /-- `parse_amount(cell, ',' if eu else '.')`; `none` = `ValueError` -/
 def parseAmount (o : Oracles) (eu : Bool) (cell : Str) : Option F64 :=
@@ -143,13 +152,19 @@ inductive Err
   | zero            -- amount == 0 → continue
   | keyError        -- template names a field that was not captured → NOT caught
   | attributeError  -- mode 2 without captures / template (`None.items()`, `None.format`) → NOT caught
+  | reError         -- `re.error` out of `strptime` (a date format with the same directive twice) → NOT caught
   | unsupported     -- template uses `!conv`, `:spec`, `a.b`, `a[0]`: outside the model
 deriving DecidableEq, Repr
 
 /-- is the exception one that `except (ValueError, IndexError)` does not catch? -/
 def Err.fatal : Err → Bool
-  | .keyError | .attributeError | .unsupported => true
+  | .keyError | .attributeError | .reError | .unsupported => true
   | _ => false
+
+def DateErr.toErr : DateErr → Err
+  | .valueError => .valueError
+  | .reError => .reError
+  | .unsupported => .unsupported
 
 def lookupCap (caps : List (Str × Str)) (n : Str) : Option Str :=
   match caps with
@@ -282,8 +297,8 @@ def parseRow (o : Oracles) (cfg : Cfg) (row : List Str) : Except Err Txn :=
     | none => .error .indexError
     | some tok =>
       match o.strptime s.dateFormat tok with
-      | none => .error .valueError
-      | some dt =>
+      | .error e => .error e.toErr
+      | .ok dt =>
         match parseAmount o cfg.eu amountStr with
         | none => .error .valueError
         | some q =>
